@@ -93,8 +93,19 @@ class Lexer:
     __slots__ = ("_source", "_len", "_done", "_position", "_started")
 
     def __init__(self, source: Union[str, bytes]):
-        self._source = ensure_unicode(source)
-        self._len = len(source)
+        try:
+            self._source = ensure_unicode(source)
+        except UnicodeDecodeError as err:
+            # ``bytes`` that are not valid UTF-8 are not a GraphQL document: reject
+            # them as a syntax error located at the first undecodable byte (as a
+            # character offset; undecodable bytes are shown as U+FFFD).
+            position = len(source[: err.start].decode("utf8"))
+            raise InvalidCharacter(
+                "Invalid UTF-8 byte 0x%02x" % source[err.start],
+                position,
+                source.decode("utf8", "replace"),
+            )
+        self._len = len(self._source)
         self._done = False
         self._started = False
         self._position = 0
